@@ -151,7 +151,11 @@ func evaluate(c *run.Case, t tally, sc *scenario, top *consumer, obs []leafObs, 
 				// errors are reserved for mismatches, so matching content
 				// from a source that does not fail, consumed with valid
 				// arguments, completes.
-				viol(o.path, "matching-content-failed", "content has exactly the digest's size and hash and the source did not fail, but the consumer received %v", o.err)
+				// Not part of C09 as stated (the statement is soundness-only:
+				// completion ONLY IF the content matches); observed, not a
+				// violation. The negative-verdict-on-matching-content clause
+				// and the match_completed floor cover the realistic cases.
+				t["observed_matching_content_failed"]++
 			default:
 				t["arg_invalid_errors"]++
 			}
